@@ -149,7 +149,7 @@ CANARIES["default_beats_kwarg_in_ternary_functions"] = _canary_default_over_kwar
 def obligations(tier):
     thorough = tier == "thorough"
     obs = []
-    rids = ["R1", "R2", "R3", "R4", "R5", "R7", "R8", "R9"] if not thorough else list(R)
+    rids = ["R1", "R2", "R3", "R4", "R5", "R7", "R8", "R9", "R10", "R11"] if not thorough else list(R)
     for rid in rids:
         t = R[rid]
         for out in _outputs(t):
